@@ -217,7 +217,7 @@ def main():
                                  meta={"variant": s.name if len(members) == 1 else s.name.rsplit("-", 1)[0] + "-*",
                                        "family": s.name.split("-")[0], "members": members,
                                        "bound": ("holes " + ", ".join("%s:%s" % (h.name, h.kind) for h in s.holes())) if len(members) == 1
-                                       else "%d hole-less skeletons (type-changing first words %r)" % (len(members), cm.FIRSTW_MENU)}))
+                                       else "%d hole-less skeletons (type-changing words, one skeleton each)" % len(members)}))
         conds.append(xh.Cond(path, "sk_0", timeout=30, twin=True, env=env, meta={"variant": specs[0].name, "family": "twin"}))
         li = [i for i, s in enumerate(specs) if s.name.startswith("layout-")][1]
         conds.append(xh.Cond(path, "sk_%d" % li, timeout=60, twin=True, env=env, meta={"variant": specs[li].name, "family": "twin"}))
